@@ -290,6 +290,28 @@ class SymSet(Sym):
     def sym_truth(self, ex):
         return self.nonempty()
 
+    def sym_len(self, ex):
+        """a non-negative integer that is 0 exactly for the empty set (the only facts about cardinality used anywhere)"""
+        n = z3.Int(ex.fresh_name("card"))
+        ex.lengths.append(n)
+        ex.assume(z3.And(n >= 0, (n == 0) == z3.Not(self.nonempty())))
+        return SInt(n)
+
+    def sym_iter(self, ex):
+        """iteration over a set of ids: every member exactly once, in an unspecified order (enumeration axioms)"""
+        if self.sort is not Id:
+            raise Unsupported("iteration over a set of this sort")
+        n = z3.Int(ex.fresh_name("n_set"))
+        ex.lengths.append(n)
+        en = z3.Function(ex.fresh_name("ENUM"), z3.IntSort(), Id)
+        a, b = z3.Ints("ea eb")
+        ex.assume(n >= 0)
+        ex.assume(FA_id(lambda x: self.member(x) == z3.Exists([a], z3.And(0 <= a, a < n, en(a) == x))))
+        ex.assume(z3.ForAll([a, b], z3.Implies(z3.And(0 <= a, a < b, b < n), en(a) != en(b))))
+        cs = CutSeq(n, lambda interp, i: SId(en(i)))
+        cs.en = en
+        return cs
+
     def sym_contains(self, ex, x):
         if isinstance(x, SId):
             return SBool(self.member(x.e))
